@@ -236,6 +236,9 @@ func (cv *conv) genCall(focusBias int) authsim.CallSpec {
 		spec.NoDesired = true
 	}
 	spec.Body = rng.IntN(3)
+	// now and then the caller has already given up when the call starts: the body is still the
+	// transport's to close
+	spec.PreCancelled = rng.IntN(12) == 0
 	if hi == 0 {
 		spec.Body = cv.cell.Body
 	}
